@@ -44,13 +44,17 @@ RULE = (
     "font/XObject names drawn from XML-special strings and a per-document character profile (ascii, latin1, cp1252, sjis, jis, kr, zh, any incl. "
     "non-BMP), optionally control characters, tab/CR/LF, U+FFFE/FFFF, names of 1500-6000 characters, empty names, non-UTF-8 names; "
     "each document x {laparams random, None} x {text, xml} x {text sink, binary sink with 2-3 codecs that round-trip the output, one of them an escape-sequence codec (iso2022_jp/_jp_2/_kr, hz) whenever one is able and the output is not pure ASCII; "
-    "85% StringIO/BytesIO, 15% real files} x strip_control, plus extract_text (given and default laparams) and "
+    "85% StringIO/BytesIO, 15% real files} x strip_control, plus extract_text (given and default laparams) and text-sink runs (extract_text_to_fp into StringIO/text file, "
+    "extract_text) that pass a narrow codec= (ascii, latin-1, cp1252, cp437, koi8-r, shift_jis, gbk, euc_kr, iso2022_jp, hz, big5; one that "
+    "cannot encode the document's text whenever there is one): a str sink must receive the tree's text unchanged whatever the codec; "
+    "XML into a text sink only accepts codec=None, so no codec is varied there; and "
     "page_numbers/maxpages. One evaluation = one (document, configuration) comparison; "
     "distinct = distinct (pdf, configuration); non-trivial = the selected pages show >=1 glyph and the document carries a "
     "non-alphanumeric feature in text or names, or a figure. Not generated: font names given as PDF strings, lone surrogates, "
     "documents that make the interpreter raise (C13), HTML/hOCR/tag output."
 )
 ASSUMPTIONS = [
+    "TextConverter/extract_text write str to a text sink as it is: the codec argument only determines the bytes of a binary sink (observed on the unchanged tree: compatible_encode_method returns a str argument unchanged, XMLConverter rejects a codec together with a text sink); a text sink is therefore required to receive the tree's text for every codec, including codecs that cannot represent it",
     "the layout tree of PDFPageAggregator/extract_pages with the same options is the tree the converters serialise (same analysis, deterministic; C08/C12 check the analysis itself)",
     "xml.parsers.expat decides XML 1.0 well-formedness; stdlib codecs decide what a codec can represent",
     "XML 1.0 2.11 / 3.3.3: CR and CRLF in character data read back as LF, tab/CR/LF in attribute values read back as spaces; the comparison is modulo exactly that",
@@ -72,7 +76,7 @@ def minimums(tier: str) -> Dict[str, int]:
     if tier == "quick":
         return {"evaluations": 4000, "distinct": 3500, "docs": 500, "text_runs": 1800, "xml_runs": 1500, "xml_elements_compared": 150000,
                 "xml_attrs_compared": 400000, "xml_chardata_compared": 100000, "xml_wellformed_demanded": 1000, "xml_marked_runs": 200,
-                "xml_bytes_parsed": 200, "binary_text_runs": 900, "binary_xml_runs": 600, "file_sink_runs": 300, "escape_codec_text_runs": 60, "escape_codec_xml_runs": 60,
+                "xml_bytes_parsed": 200, "binary_text_runs": 900, "binary_xml_runs": 600, "file_sink_runs": 300, "escape_codec_text_runs": 60, "text_sink_codec_runs": 800, "text_sink_lossy_codec_runs": 600, "seen:text_sink_codecs": 8, "escape_codec_xml_runs": 60,
                 "reference_trees_compared": 3500, "text_box_newlines": 10000, "text_formfeeds": 1000,
                 "docs_xmlspecial_text": 200, "docs_xmlspecial_fontname": 150, "docs_xmlspecial_figname": 80, "docs_nonbmp": 25,
                 "docs_ctrl_text": 60, "docs_ctrl_name": 40, "docs_nonchar_text": 8, "docs_nested_figures": 40, "docs_images": 80,
@@ -80,7 +84,7 @@ def minimums(tier: str) -> Dict[str, int]:
                 "layout_elements": 200, "seen:xml_tags": 12, "seen:codecs": 28}
     return {"evaluations": 100000, "distinct": 85000, "docs": 12800, "text_runs": 50000, "xml_runs": 40000, "xml_elements_compared": 4000000,
             "xml_attrs_compared": 10000000, "xml_chardata_compared": 2500000, "xml_wellformed_demanded": 30000, "xml_marked_runs": 6000,
-            "xml_bytes_parsed": 6000, "binary_text_runs": 25000, "binary_xml_runs": 18000, "file_sink_runs": 9000, "escape_codec_text_runs": 1800, "escape_codec_xml_runs": 1800,
+            "xml_bytes_parsed": 6000, "binary_text_runs": 25000, "binary_xml_runs": 18000, "file_sink_runs": 9000, "escape_codec_text_runs": 1800, "text_sink_codec_runs": 20000, "text_sink_lossy_codec_runs": 15000, "seen:text_sink_codecs": 11, "escape_codec_xml_runs": 1800,
             "reference_trees_compared": 85000, "text_box_newlines": 300000, "text_formfeeds": 30000,
             "docs_xmlspecial_text": 6000, "docs_xmlspecial_fontname": 4500, "docs_xmlspecial_figname": 2400, "docs_nonbmp": 1200,
             "docs_ctrl_text": 1800, "docs_ctrl_name": 1200, "docs_nonchar_text": 300, "docs_nested_figures": 1200, "docs_images": 2400,
@@ -233,7 +237,7 @@ def _install_recorder() -> None:
 
 
 def run_converter(pdf: bytes, output_type: str, la: Optional[Dict[str, Any]], sel: Dict[str, Any], codec: Optional[str],
-                  strip: bool = False, filesink: bool = False) -> Tuple[Any, List[Any]]:
+                  strip: bool = False, filesink: bool = False, sink_codec: Optional[str] = None) -> Tuple[Any, List[Any]]:
     """extract_text_to_fp into a text sink (codec None) or a binary sink (codec given) -> (str / bytes, serialised LTPages).
 
     The sink is a StringIO / BytesIO, or (filesink) a real temporary file opened in text mode (UTF-8, no newline
@@ -251,6 +255,8 @@ def run_converter(pdf: bytes, output_type: str, la: Optional[Dict[str, Any]], se
     kw: Dict[str, Any] = dict(sel)
     if binary:
         kw["codec"] = codec
+    elif output_type == "text" and sink_codec is not None:
+        kw["codec"] = sink_codec   # a codec given together with a text sink: the sink still receives str, unchanged
     elif output_type == "xml":
         kw["codec"] = None         # the XML converter insists on "no codec" for a text sink
     if output_type == "xml":
@@ -266,12 +272,15 @@ def run_converter(pdf: bytes, output_type: str, la: Optional[Dict[str, Any]], se
         out.close()
 
 
-def run_extract_text(pdf: bytes, la: Optional[Dict[str, Any]], sel: Dict[str, Any]) -> Tuple[str, List[Any]]:
+def run_extract_text(pdf: bytes, la: Optional[Dict[str, Any]], sel: Dict[str, Any], codec: Optional[str] = None) -> Tuple[str, List[Any]]:
     from pdfminer.high_level import extract_text
 
     _install_recorder()
     del _SEEN[:]
-    out = extract_text(io.BytesIO(pdf), laparams=make_laparams(la), **sel)
+    kw: Dict[str, Any] = dict(sel)
+    if codec is not None:
+        kw["codec"] = codec
+    out = extract_text(io.BytesIO(pdf), laparams=make_laparams(la), **kw)
     return out, list(_SEEN)
 
 
@@ -549,6 +558,23 @@ def choose_codecs(rng: Any, text: str, k: int) -> List[str]:
     return chosen
 
 
+NARROW_CODECS = ["ascii", "latin-1", "cp1252", "cp437", "koi8-r", "shift_jis", "gbk", "euc_kr", "iso2022_jp", "hz", "big5"]
+
+
+def narrow_codec(rng: Any, text: str) -> Tuple[str, bool]:
+    """A codec to pass along with a TEXT sink -> (codec, lossy); lossy = it cannot encode some character of the text
+    (preferred when there is one), so that any use of the codec on the way to a str sink changes the output."""
+    lossy = []
+    for c in NARROW_CODECS:
+        try:
+            text.encode(c)
+        except UnicodeError:
+            lossy.append(c)
+    if lossy:
+        return rng.choice(lossy), True
+    return rng.choice(NARROW_CODECS), False
+
+
 def able_codecs(text: str) -> List[str]:
     out = list(CODECS_ALWAYS)
     for c in CODECS_IF_ABLE:
@@ -703,8 +729,21 @@ def check_case(case: Dict[str, Any], rec: Any = None, only: Optional[str] = None
         if rec is not None:
             rec.case(chash(pdf, cfg), nontrivial)
 
-    def eval_text(label: str, got: str, pages: List[Any]) -> bool:
+    def eval_text(label: str, got: Any, pages: List[Any], sink_codec: Optional[str] = None) -> bool:
         exp = tree_text(pages)
+        if not isinstance(got, str):
+            fails.append(("text_sink_not_str", "%s: %r" % (label, type(got))))
+            return False
+        if got != exp and sink_codec is not None:
+            try:
+                through = exp.encode(sink_codec, "ignore").decode(sink_codec, "ignore")
+            except (UnicodeError, LookupError):
+                through = None
+            k, d = classify_text_diff(exp, got)
+            if got == through:
+                fails.append(("text_sink_codec_applied", "%s: the text sink received the text as it survives codec=%s (characters the codec cannot "
+                              "represent are lost); %s" % (label, sink_codec, d)))
+                return False
         if got != exp:
             k, d = classify_text_diff(exp, got)
             fails.append(("%s_mismatch:%s" % (label.split("/")[0], k), "%s: %s" % (label, d)))
@@ -753,6 +792,15 @@ def check_case(case: Dict[str, Any], rec: Any = None, only: Optional[str] = None
             return False
         return True
 
+    def sink_codec_for(text: str) -> str:
+        c, lossy = narrow_codec(rng, text)
+        count("text_sink_codec_runs")
+        if lossy:
+            count("text_sink_lossy_codec_runs")
+        if rec is not None:
+            rec.see("text_sink_codecs", c)
+        return c
+
     def decode_text(label: str, codec: str, raw: Any, pages: List[Any]) -> bool:
         if not isinstance(raw, bytes):
             fails.append(("text_binary_not_bytes", "%s: %r" % (label, type(raw))))
@@ -776,24 +824,40 @@ def check_case(case: Dict[str, Any], rec: Any = None, only: Optional[str] = None
         for la in la_list:
             lk = "none" if la is None else "main"
             fs = rng.random() < 0.15
-            label = "text/%s/%s" % ("textfile" if fs else "StringIO", lk)
+            sc: Optional[str] = None
+            if la is None and text_main is not None:      # second text-sink run: a codec is passed along with the str sink
+                sc = sink_codec_for(text_main)
+            label = "text/%s/%s%s" % ("textfile" if fs else "StringIO", lk, "/codec=%s" % sc if sc else "")
             count("file_sink_runs", int(fs))
-            r = call(label, run_converter, pdf, "text", la, sel, None, False, fs)
-            evaluation("text/str/" + lk)
+            r = call(label, run_converter, pdf, "text", la, sel, None, False, fs, sc)
+            evaluation("text/str/%s/%s" % (lk, sc))
             count("text_runs")
             if la is None:
                 count("laparams_none_runs")
             if r is None:
                 continue
-            ok = eval_text(label, r[0], r[1]) and plumbing(label, la, r[1], True)
+            ok = eval_text(label, r[0], r[1], sc) and plumbing(label, la, r[1], True)
             if ok and la is la_main:
                 text_main = r[0]
-        # the convenience function
-        r = call("extract_text", run_extract_text, pdf, la_main, sel)
-        evaluation("extract_text")
+        if text_main is not None:
+            # a codec given together with a text sink: the sink receives the tree's text unchanged, whatever the codec can hold
+            fs = rng.random() < 0.15
+            sc = sink_codec_for(text_main)
+            label = "text/%s/main/codec=%s" % ("textfile" if fs else "StringIO", sc)
+            count("file_sink_runs", int(fs))
+            r = call(label, run_converter, pdf, "text", la_main, sel, None, False, fs, sc)
+            evaluation("text/str/main/%s" % sc)
+            count("text_runs")
+            if r is not None:
+                _ = eval_text(label, r[0], r[1], sc) and plumbing(label, la_main, r[1], True)
+        # the convenience function (returns str; its codec argument must not change the characters either)
+        sc = sink_codec_for(text_main) if text_main is not None and rng.random() < 0.7 else None
+        label = "extract_text" + ("/codec=%s" % sc if sc else "")
+        r = call(label, run_extract_text, pdf, la_main, sel, sc)
+        evaluation("extract_text/%s" % sc)
         count("text_runs")
         if r is not None:
-            _ = eval_text("extract_text", r[0], r[1]) and plumbing("extract_text", la_main, r[1], True)
+            _ = eval_text(label, r[0], r[1], sc) and plumbing(label, la_main, r[1], True)
         if rng.random() < 0.3:      # laparams=None means "defaults" for extract_text (unlike extract_text_to_fp)
             r = call("extract_text/default", run_extract_text, pdf, None, sel)
             evaluation("extract_text/default")
